@@ -95,6 +95,12 @@ func RunChild(spec *ChildSpec, hooks RunHooks) (*ChildResult, error) {
 		evBefore = fi.Size()
 	}
 	cmd := exec.Command(self, "--child", specFile)
+	switch {
+	case spec.KillAtPwrite > 0:
+		cmd = exec.Command("strace", "-f", "-qq", "-o", "/dev/null", "-e", "trace=pwrite64", "-e", fmt.Sprintf("inject=pwrite64:signal=KILL:when=%d", spec.KillAtPwrite), self, "--child", specFile)
+	case spec.PwriteLog != "":
+		cmd = exec.Command("strace", "-f", "-qq", "-o", spec.PwriteLog, "-e", "trace=pwrite64", self, "--child", specFile)
+	}
 	cmd.Dir = spec.Dir
 	cmd.Stdout = errFile
 	cmd.Stderr = errFile
